@@ -13,9 +13,11 @@ All runs use the quick tier with VERIF_SEED=1 against a scratch worktree of /rep
 
 ## 1. Independently seeded changes (sub-agents that saw only the property text)
 
-Two rounds. Round 1 (`seeded/C01` ... `seeded/C19`): one change per property, free choice of mechanism — most agents chose a
+Three rounds. Round 1 (`seeded/C01` ... `seeded/C19`): one change per property, free choice of mechanism — most agents chose a
 cache or another form of shared state. Round 2 (`seeded/Cxx-2`): a second change per property with the instruction to use
-something else (arithmetic, indexing, ordering, sign handling, boundary conditions, data slips). Every change keeps the 152
+something else (arithmetic, indexing, ordering, sign handling, boundary conditions, data slips). Round 3 (`seeded/Cxx-3`): a
+third change per property, told which mechanisms had been used before and asked for something different, confined if possible
+to the interaction of two features. Every change keeps the 152
 stable tests of the repository green and comes with a demonstration program (`demo.py`: exit 1 with the change, exit 0
 without), both re-confirmed here by `tools_seeded.py`; `meta.json` holds the agent's description and the recorded runs,
 `replays/<check>.json` the minimal failing input the check produced (these are also the regression inputs under `regress/`).
@@ -28,7 +30,9 @@ dependence; the answer was to make *sequences of related inputs in one process* 
 re-verification, C09/C10 configuration sequences, C18 preludes, C19 operation sequences, C13 hermetic histories). The lesson
 of round 2 was that special *presentations* of a state (literally in graph form, the table's own representative, several
 quantum registers, caller metadata) and *rare table features* (SWAP gates, one configuration's one circuit) deserve strata of
-their own rather than being left to uniform sampling.
+their own rather than being left to uniform sampling. Round 3 added the named textbook states in uniform frames (one local
+frame out of 6^n in 16 ring classes cannot be reached by per-qubit sampling), the input/result aliasing step of C13, and the
+differential of C17 against the library's own record of each table line.
 
 ## 2. Own mutation battery (`tools_mutants_batch.py`)
 
